@@ -335,8 +335,12 @@ fn run_chain(ext: &str, bytes: &[u8], with_ref: bool, model: bool) -> ChainObs {
             let n = RefCell::new(0usize);
             let cnt = RefCell::new((0usize, 0usize));
             let nps = ps.len();
+            let wr = RefCell::new(Vec::with_capacity(4096));
             let r = adlt::plugins::plugins_process_msgs(rx, &|m| {
                 *n.borrow_mut() += render(&m, &mut hdr.borrow_mut());
+                // `adlt convert -o` writes the messages as the plugins left them
+                wr.borrow_mut().clear();
+                let _ = m.to_write(&mut *wr.borrow_mut());
                 let mut c = cnt.borrow_mut();
                 c.0 += 1;
                 c.1 += m.payload_text.is_some() as usize;
@@ -625,7 +629,7 @@ fn gen_dlt(g: &str, seed: u64, small: bool) -> Vec<u8> {
     let mut rng = Rng::new(seed ^ 0xC03);
     let mut out = vec![];
     let serial = g == "serial";
-    let n = if small { rng.range(1, 9) } else { rng.range(1, 400) };
+    let n = if g == "big" { rng.range(1, 5) } else if small { rng.range(1, 9) } else { rng.range(1, 400) };
     let necu = rng.range(1, 3) as usize;
     let mut secs: u32 = *rng.pick(&[0u32, 1, 1_000_000, 1_700_000_000, 1_700_000_000, u32::MAX - 200]);
     let mut us: u32 = rng.below(1_000_000) as u32;
@@ -814,6 +818,43 @@ fn gen_dlt(g: &str, seed: u64, small: bool) -> Vec<u8> {
                     let l = rng.size(30) as usize;
                     m.payload = rand_bytes(&mut rng, l);
                 }
+            }
+        }
+        if g == "big" {
+            // payloads close to (or beyond) what the 16 bit length field can describe
+            let l = *rng.pick(&[30_000usize, 60_000, 65_000, 65_490, 65_500, 65_510, 65_520, 70_000]);
+            let mut p = vec![];
+            let (vmm, noar) = match rng.below(6) {
+                0 => { p.extend_from_slice(&u32b(0x200 | 0x8000, be)); p.extend_from_slice(&u16b(l as u16, be)); p.extend_from_slice(&rand_text(&mut rng, l)); (VERB_INFO, 1) }
+                1 => { p.extend_from_slice(&u32b(0x400, be)); p.extend_from_slice(&u16b(l as u16, be)); p.extend_from_slice(&rand_bytes(&mut rng, l)); (VERB_INFO, 1) }
+                2 => { p.extend_from_slice(&u32b(805312382, be)); p.extend_from_slice(&rand_bytes(&mut rng, l)); (0x40, 2) }
+                3 => { for _ in 0..l / 5 { a_num(&mut p, 0x40, 1, rng.below(256), be); } (VERB_INFO, 255) }
+                4 => {
+                    p.extend_from_slice(&u32b(3, be));
+                    p.push(7);
+                    p.extend_from_slice(&u16b((l / 20) as u16, be));
+                    for k in 0..l / 20 {
+                        p.extend_from_slice(&[b'A', b'0' + (k % 10) as u8, b'0' + (k / 10 % 10) as u8, b'0' + (k / 100 % 10) as u8]);
+                        p.extend_from_slice(&u16b(1, be));
+                        p.extend_from_slice(b"CTXT");
+                        p.extend_from_slice(&[4, 1]);
+                        p.extend_from_slice(&u16b(2, be));
+                        p.extend_from_slice(b"cd");
+                        p.extend_from_slice(&u16b(2, be));
+                        p.extend_from_slice(b"ad");
+                    }
+                    (CTRL_RESP, 1)
+                }
+                _ => { p.extend_from_slice(&u32b(0x13, be)); p.push(0); p.extend_from_slice(&u32b(l as u32, be)); p.extend_from_slice(&rand_text(&mut rng, l)); (CTRL_RESP, 1) }
+            };
+            m = m.ext(vmm, noar, b"APID", b"CTID");
+            m.payload = p;
+            if vmm == 0x40 {
+                // non verbose for the fibex of /repo/tests: its ECU, with or without an extended header (the plugin adds one)
+                m.secu = *b"Ecu1";
+                m.hecu = *b"Ecu1";
+                if rng.chance(1, 2) { m.ext = None; m.htyp &= !1; }
+                if rng.chance(1, 2) { m.htyp &= !0x04; }
             }
         }
         if rng.chance(1, 60) { m.len_delta = *rng.pick(&[-1i32, 1, -4, 100, -100, 65535]); }
@@ -1464,6 +1505,12 @@ fn corpus() -> Vec<(Value, &'static str)> {
     };
     v.push((r_hex("dlt", &enc(&[w1.clone(), flst(u64::MAX, u64::MAX)])), "w_flst_huge"));
     v.push((r_hex("dlt", &enc(&[w1.clone(), flst(1 << 33, 1 << 33), flst(u32::MAX as u64, 65535), flst(3, 1 << 62)])), "w_flst_huge"));
+    // maximum sized non verbose message without extended header: the NonVerbose plugin adds one, `convert -o` writes it
+    let mut nvmax = GM::new(b"Ecu1", 1000, 400, 30);
+    nvmax.htyp = 0x30;
+    nvmax.payload = 805312382u32.to_le_bytes().to_vec();
+    nvmax.payload.extend(std::iter::repeat(0u8).take(65_520));
+    v.push((r_hex("dlt", &enc(&[w1.clone(), nvmax])), "w_nv_max_size"));
     // timestamps 0 / u32::MAX / beyond reception, reception time 0 and u32::MAX seconds, micros out of range
     let t1 = [plain(b"ECU1", 0, 0), plain(b"ECU1", 0, u32::MAX), plain(b"ECU1", 1, 1), plain(b"ECU1", u32::MAX as u64 * 1_000_000 + 999_999, u32::MAX), plain(b"ECU1", u32::MAX as u64 * 1_000_000, 0), plain(b"ECU2", 5_000_000, 4_000_000_000)];
     v.push((with_flag(r_hex("dlt", &enc(&t1)), "model"), "w_time_extremes"));
@@ -1499,7 +1546,7 @@ fn corpus() -> Vec<(Value, &'static str)> {
     v.push((r_text("log", &format!("[2024-01-02 03:04:05.678] [INF] [{}] a\n", long)), "w_long_tag"));
     v.push((r_text("asc", &format!("date Tue Apr 12 08:55:37 AM 2022\n// BusMapping: CAN 1 = {}\n   0.000001 1  36f  Rx   d 0\n", long)), "w_long_tag"));
     v.push((r_text("asc", &format!("   0.000001 1  36f  Rx   d 21845 {}\n   0.000002 1  36f  Rx   d 65535 {}\n", "ab ".repeat(21845), "cd ".repeat(65535))), "w_long_tag"));
-    v.push((with_flag(r_text("asc", "date Tue Apr 12 08:55:37 AM 2022\n   429496.729600 1  36f  Rx   d 0\n   429497.000000 1  36f  Rx   d 0\n"), "ref"), "w_asc_ts_offset"));
+    v.push((with_flag(r_text("asc", "date Fri Apr 12 08:55:37 AM 2024\n   429496.000000 1  36f  Rx   d 0\n   429490.000000 1  36f  Rx   d 0\n"), "ref"), "w_asc_ts_offset"));
     v.push((r_text("log", "[2024-01-02 03:04:05.678] [INF] [tag] message\n[2024-13-40 25:61:61.999] [€€€] [éé] m\n[2999-12-31 23:59:59.999] [ERR] [ää] m\n"), "w_genlog"));
     v
 }
@@ -1507,7 +1554,7 @@ fn corpus() -> Vec<(Value, &'static str)> {
 const DLT_FILES: [&str; 7] = ["lc_ex002.dlt", "lc_ex003.dlt", "lc_ex004.dlt", "lc_ex005.dlt", "lc_ex006.dlt", "ex_1970_1_1.dlt", "test_ascii_utf8_strings.dlt"];
 const TEXT_FILES: [(&str, &str); 11] = [("asc", "can_example1.asc"), ("asc", "can_example1b.asc"), ("asc", "can_example1c.asc"), ("asc", "can_example2a.asc"), ("asc", "can_example2b.asc"), ("asc", "can_example3.asc"),
     ("txt", "logcat_example1.txt"), ("txt", "logcat_example2.txt"), ("txt", "logcat_example3.txt"), ("txt", "logcat_example4.txt"), ("log", "genlog_example1.log")];
-const GENS: [&str; 10] = ["lc", "lcspec", "ft", "ctrl", "nv", "someip", "can", "muniic", "serial", "mixed"];
+const GENS: [&str; 11] = ["lc", "lcspec", "ft", "ctrl", "nv", "someip", "can", "muniic", "serial", "mixed", "big"];
 const BIN_MUTS: [&str; 4] = ["flip", "trunc", "splice", "bytes"];
 const TEXT_MUTS: [&str; 6] = ["flip", "trunc", "splice", "bytes", "uni", "longline"];
 
@@ -1561,7 +1608,7 @@ fn build_cases(tier: &str, seed: u64, count: Option<u64>) -> Vec<(Value, String)
                 }
             };
             // small storage-framed cases also go through the Coq models
-            let r = if small && g != "serial" { with_flag(r, "model") } else { r };
+            let r = if small && g != "big" { with_flag(r, "model") } else { r };
             v.push((r, tag));
         }
     }
